@@ -47,6 +47,19 @@ LiveClauses ==
   IF ~L.live \/ End.outcome # "quiescent" \/ End.stopped THEN {}
   ELSE (IF L.live_spy_calls = ExpSpy(L.calls) THEN {} ELSE {"LiveSpy"})
        \cup (IF ~L.toggle \/ L.live_trc = <<<<"start_at", "top", "s1">>>> \o ExpTrc(L.disp_sigs, 1) THEN {} ELSE {"LiveTrace"})
+(* C23 for the active-object host: once start_at has returned, and when the object has come to rest, state_name names the   *)
+(* current state and state_fn is its handler.  The expected current state comes from the chart and the handlers' own log:  *)
+(* start_at(s1) settles in s2 when s1 is composite (nested chart), and every A that was answered with a transition moves   *)
+(* to the sibling state.                                                                                                     *)
+N == End.names
+StartState == IF N.nested THEN 2 ELSE 1
+Flip(st) == IF N.nested THEN (IF st = 2 THEN 3 ELSE 2) ELSE IF N.toggle THEN (IF st = 1 THEN 2 ELSE 1) ELSE st
+FinalState == IF N.a_disp % 2 = 0 THEN StartState ELSE Flip(StartState)
+Describes(d, st) == d = <<"s" \o ToString(st), st, st>>
+NameClauses ==
+  IF ~N.on THEN {}
+  ELSE (IF N.early \/ Describes(N.after, StartState) THEN {} ELSE {"NameAfterStart"})
+       \cup (IF End.outcome # "quiescent" \/ End.stopped \/ Describes(N.final, FinalState) THEN {} ELSE {"NameAtRest"})
 Final ==
      (IF End.outcome = "bound" THEN {"NoProgress"} ELSE {})
   \cup (IF End.outcome = "error" THEN {"Error"} ELSE {})
@@ -57,7 +70,7 @@ Final ==
   \cup (IF ~InOrder THEN {"Order"} ELSE {})
   \cup (IF ~NothingLost THEN {"Lost"} ELSE {})
   \cup (IF End.rtc_overlap THEN {"RtcOverlap"} ELSE {})
-  \cup LiveClauses
+  \cup LiveClauses \cup NameClauses
 
 TNext ==
   /\ bad = {} /\ l <= Len(T.ops) + 1 /\ tid' = tid /\ l' = l + 1
